@@ -138,7 +138,7 @@ class Monitor:
             try:
                 env["__builtins__"] = {}
                 ok = eval(code, env)
-            except (IndexError, KeyError, TypeError, AttributeError, ValueError) as e:
+            except (IndexError, KeyError, TypeError, AttributeError, ValueError, NameError) as e:
                 # a clause that cannot be evaluated natively (e.g. reads outside the specified domain):
                 # underspecified in the logic, so not a failure
                 continue
